@@ -240,8 +240,9 @@ func ham2418(d uint32) [3]byte {
 // designationUnit builds an X/28/0 format 1 (y=28) or M/29/0 (y=29) packet that designates the Latin G0/G2 sets with
 // the national option sub-set given by C12-C14 (table 32: bits 14-11 = 0000, bits 10-8 = C12 C13 C14); all other
 // triplets are zero.
-func designationUnit(mag, y uint8, c12, c13, c14 uint8) []byte {
-	t1 := uint32(c12)<<9 | uint32(c13)<<8 | uint32(c14)<<7 // page function 0 (bits 1-4), page coding 0 (bits 5-7)
+func designationUnit(mag, y uint8, c12, c13, c14 uint8, family uint32) []byte {
+	// page function 0 (bits 1-4), page coding 0 (bits 5-7), set designation: bits 14-11 family, bits 10-8 national option
+	t1 := family<<10 | uint32(c12)<<9 | uint32(c13)<<8 | uint32(c14)<<7
 	d := []byte{ham84(0)}
 	tr := ham2418(t1)
 	d = append(d, tr[0], tr[1], tr[2])
@@ -443,11 +444,15 @@ func (s ttxStream) render() ([]byte, []ttxExpCue) {
 			units = append(units, headerUnit(ttxHeader{Mag: otherMag, Tens: 0xf, Units: 0xf, Serial: s.Serial}, 0x03))
 		}
 		if s.Designation == 2 {
-			units = append(units, designationUnit(s.Mag, 29, in.C12, in.C13, in.C14))
+			units = append(units, designationUnit(s.Mag, 29, in.C12, in.C13, in.C14, 0))
+		}
+		if s.Designation == 3 {
+			// the magazine-wide default (M/29) names the first Cyrillic set, the page's own X/28 names Latin: X/28 wins
+			units = append(units, designationUnit(s.Mag, 29, 0, 0, 0, 4))
 		}
 		units = append(units, headerUnit(sel(in), 0x03))
-		if s.Designation == 1 {
-			units = append(units, designationUnit(s.Mag, 28, in.C12, in.C13, in.C14))
+		if s.Designation == 1 || s.Designation == 3 {
+			units = append(units, designationUnit(s.Mag, 28, in.C12, in.C13, in.C14, 0))
 		}
 		headers = append(headers, in.PTS)
 		secondPTS := in.PTS
@@ -560,6 +565,14 @@ func (s ttxStream) render() ([]byte, []ttxExpCue) {
 		opt := [3]uint8{in.C12, in.C13, in.C14}
 		for _, r := range rows {
 			// a row left without any text (its only characters failed parity) yields no line
+			if opt == [3]uint8{1, 1, 1} {
+				l := expLine(r, [3]uint8{0, 0, 0})
+				l.AnyText = true
+				if len(l.Runs) > 0 {
+					c.Lines = append(c.Lines, l)
+				}
+				continue
+			}
 			if l := expLine(r, opt); len(l.Runs) > 0 {
 				c.Lines = append(c.Lines, l)
 			}
@@ -581,6 +594,9 @@ type ttxExpRun struct {
 type ttxExpLine struct {
 	Runs      []ttxExpRun `json:"runs"`
 	BadParity bool        `json:"bad_parity"`
+	// AnyText: the page uses the reserved national option (C12-C14 = 111): what the 13 national positions show is
+	// not defined by the standard, so only the structure of the line is asserted (and that reading is repeatable)
+	AnyText bool `json:"any_text"`
 }
 
 type ttxExpCue struct {
@@ -673,7 +689,7 @@ func diffTTX(exp []ttxExpCue, s *astisub.Subtitles) string {
 					a += r.Text
 					b += r.AltText
 				}
-				if stripSpaces(g) != stripSpaces(a) && stripSpaces(g) != stripSpaces(b) {
+				if !wl.AnyText && stripSpaces(g) != stripSpaces(a) && stripSpaces(g) != stripSpaces(b) {
 					return fmt.Sprintf("cue %d line %d (row with parity errors): text %q, expected %q", i, j, g, a)
 				}
 				continue
@@ -683,7 +699,7 @@ func diffTTX(exp []ttxExpCue, s *astisub.Subtitles) string {
 			}
 			for k, wr := range wl.Runs {
 				li := gl.Items[k]
-				if li.Text != wr.Text && li.Text != wr.AltText {
+				if !wl.AnyText && li.Text != wr.Text && li.Text != wr.AltText {
 					return fmt.Sprintf("cue %d line %d run %d: text %q, expected %q", i, j, k, li.Text, wr.Text)
 				}
 				gc, dh, dw, ds := -1, false, false, false
@@ -794,7 +810,7 @@ func genTTXStream(t *rapid.T) ttxStream {
 		SamePageOther: rapid.Bool().Draw(t, "samepage"),
 		OptPage:       rapid.Bool().Draw(t, "optpage"),
 		OptPID:        rapid.Bool().Draw(t, "optpid"),
-		Designation:   rapid.SampledFrom([]int{0, 0, 1, 2}).Draw(t, "designation"),
+		Designation:   rapid.SampledFrom([]int{0, 0, 1, 2, 3}).Draw(t, "designation"),
 	}
 	pts := rapid.Int64Range(2, 90000*3600).Draw(t, "pts0")
 	if rapid.Bool().Draw(t, "leadin") {
@@ -804,7 +820,7 @@ func genTTXStream(t *rapid.T) ttxStream {
 		}
 	}
 	n := rapid.IntRange(1, 5).Draw(t, "instances")
-	opts := [][3]uint8{{0, 0, 0}, {0, 0, 1}, {0, 1, 0}, {0, 1, 1}, {1, 0, 0}, {1, 0, 1}, {1, 1, 0}}
+	opts := [][3]uint8{{0, 0, 0}, {0, 0, 1}, {0, 1, 0}, {0, 1, 1}, {1, 0, 0}, {1, 0, 1}, {1, 1, 0}, {1, 1, 1}}
 	for i := 0; i < n; i++ {
 		o := rapid.SampledFrom(opts).Draw(t, "natopt")
 		in := ttxInstance{PTS: pts, C12: o[0], C13: o[1], C14: o[2]}
